@@ -343,7 +343,7 @@ def k_d42(case, obs):
     return False
 
 
-# case-level predicates first; D10 is decided on the observed difference.  The findings D9, D11, D35, D36, D37, D40, D41 are
+# case-level predicates first; D10 is decided on the observed difference.  The findings D9, D11, D35, D36, D37, D40, D41, D43, D44 are
 # repaired in the code (known_findings.json: "fixed"); their former witnesses are replayed as ordinary cases (WITNESSES).
 CLASSIFIERS = [("D38", k_d38), ("D42", k_d42), ("D12", k_d12), ("D10", k_d10)]
 
@@ -451,7 +451,8 @@ class Gen:
             elif r < 0.62 and inbody and self.params(inbody):
                 args.append(rng.choice(self.params(inbody)))
             elif r < 0.66:
-                args.append(rng.choice([" 'a' ", "\"s\"", " q", "q  r", "'a'", "'x'", "'b'", '"x"', '"a\\n"', '"q\\"r"']))
+                args.append(rng.choice([" 'a' ", "\"s\"", " q", "q  r", "'a'", "'x'", "'b'", '"x"', '"a\\n"', '"q\\"r"',
+                                        '","', '"("', '")"', "','", "'('", "')'", '"," x', "1 '('"]))  # literals spelled like delimiters (finding D44, repaired)
                 self.flags.add("literal_arg")
             elif r < 0.70:
                 args.append(rng.choice(["x", "y", "x y", "q x", "_ y"]))  # identifiers spelled like parameters (finding D41, repaired)
@@ -774,6 +775,38 @@ def looks_like_expression(text):
     return re.search(r"(==|<|>|!=|>=)\s*\d+\s*$", text) is not None
 
 
+def fragment_share(ctx, drv, case, small, S):
+    """Which *proved* fragment of C03 the (well-formed) case lies in (driver op `c03frag` evaluates the hypotheses of
+    `C03.funlike_conforms_partial` / `C03.funlike_simple_conforms_partial` themselves), and - inside the fragment - that the
+    specification side of the theorem (Prosser's algorithm on the table and text translated from the model's lexer and `#define`
+    parser) has the spellings of the harness's oracle (Prosser's algorithm behind its own lexer and parser)."""
+    F = ask(ctx, drv, {"op": "c03frag", "defs": case.get("defs", []), "cmd": case.get("cmd", []), "text": case["text"]})
+    if not F or not F.get("table"):
+        return
+    calls = F.get("calls", 0) > 0
+    if F.get("strcat"):
+        # C03.strcat_partial: model = RefS (macros with # / ##; nothing about the table assumed)
+        ctx.dist["proved_fragment:strcat_partial(model = RefS)" + (", table uses # or ##, with calls" if F.get("has_strcat") and calls else "")] += 1
+        if not F.get("strcat_holds"):
+            ctx.dist["proved_fragment:DRIVER CONTRADICTS THEOREM"] += 1
+            ctx.notes.append(f"driver evaluation contradicts C03.strcat_partial on {small}")
+    if F.get("conf"):
+        ctx.dist["proved_fragment:funlike_conforms(with calls)" if calls else "proved_fragment:funlike_conforms(no call in the text)"] += 1
+        if F.get("simple") and calls:
+            ctx.dist["proved_fragment:funlike_simple_conforms(with calls)"] += 1
+        if not F.get("theorem_holds"):
+            ctx.dist["proved_fragment:DRIVER CONTRADICTS THEOREM"] += 1
+            ctx.notes.append(f"driver evaluation contradicts C03.funlike_conforms_partial on {small}")
+        if [t["t"] for t in S["ok"]] == F.get("spec_spellings"):
+            ctx.dist["proved_fragment:translated spec == oracle spec"] += 1
+        else:
+            ctx.dist["proved_fragment:translated spec != oracle spec"] += 1
+            if len(ctx.notes) < 10:
+                ctx.notes.append(f"spec on the translated table/text differs from the spec behind its own lexer on {small}")
+    else:
+        ctx.dist["proved_fragment:outside"] += 1
+
+
 def check_case(ctx, drv, cb, case, gcc=False):
     flags = case.get("flags", [])
     obs = {}
@@ -823,6 +856,7 @@ def check_case(ctx, drv, cb, case, gcc=False):
     ctx.dist["wf"] += 1
     sn = norm_spec(S["ok"])
     obs["spec_norm"] = sn
+    fragment_share(ctx, drv, case, small, S)
     if gcc and re.search(r"\bdefined\b", case["text"]) is None:  # gcc -E evaluates `defined` only inside #if
         g = gcc_expand(case)
         if g is None:
@@ -972,6 +1006,10 @@ ASSUMPTIONS = [
     "counts as a violation: where a call is completed by tokens that follow the expansion its name came from, the standard leaves open whether "
     "the replacement is nested (C11 6.10.3.4p4); Prosser's hide-set rule and gcc's context rule differ there, and a result equal to gcc's "
     "(diagnostic-free) output is accepted (counted in the distribution, listed under spec_vs_gcc_disagreements)",
+    "every well-formed case is also located relative to the *proved* fragments (driver op `c03frag` evaluates the hypotheses of "
+    "C03.funlike_conforms_partial / funlike_simple_conforms_partial themselves, budget d = |tbl|+2, argument bound L = 64): distribution "
+    "keys `proved_fragment:*`; inside the fragment the specification side of the theorem (Prosser's algorithm on the table and text "
+    "translated from the model's lexer and #define parser) is compared with the oracle (Prosser's algorithm behind its own lexer)",
     "spec validation against gcc -E -P (thorough tier) compares pp-token spellings, string literals modulo white space (gcc keeps a blank "
     "for an empty argument inside stringified text, which the standard leaves open); inputs with `defined` in the text are validated "
     "through `#if` truth only, because gcc -E evaluates `defined` only inside #if",
@@ -1008,6 +1046,10 @@ WITNESSES = [
     {"defs": ["CAT(a,b) a##b"], "text": "CAT(,a) CAT(b,) CAT(,) CAT(a b, a b)", "flags": ["paste", "empty_arg"], "origin": "repaired:D9+D41"},
     {"cmd": ["F=B B()", "B(args...)=args ( F"], "text": "F B(B(q))", "flags": ["variadic"], "origin": "repaired:D11(b)"},
     {"defs": ["F(x) \"#\" x"], "text": "F(1)", "flags": [], "origin": "witness:D42"},
+    {"defs": ["F(x,y) x+y"], "text": "F(\",\",2)", "flags": [], "origin": "repaired:D44"},
+    {"defs": ["F(x,y) x+y", "G(a) [a]"], "text": "F(\"(\",')') G \"(\" 1 G((\")\")) F(',', \",\")", "flags": [], "origin": "repaired:D44(b)"},
+    {"defs": ["F(x,y) x+G(y)*N", "G(a) (a a)", "N 3 N", "R(x) R(x)-1", "Z() 7"], "text": "F(p, (q,r)) + R(2) G Z() F(,s);", "flags": ["recursion", "empty_arg"], "origin": "proved:funlike_conforms_partial"},
+    {"defs": ["I", "H(x) G I ()", "G() H(1)", "F(x) x"], "text": "F(H(0))", "flags": ["recursion"], "origin": "witness:Ref/gcc vs Prosser (unspecified nesting)"},
     {"defs": ["A%d A%d" % (i, i + 1) for i in range(199)], "text": "A0", "flags": [], "origin": "witness:D12"},
     {"defs": ["A%d A%d" % (i, i + 1) for i in range(198)], "text": "A0", "flags": [], "origin": "boundary:198 nested macros fit"},
     {"defs": ["f(x) x"], "text": "f(" * 100 + "1" + ")" * 100, "flags": [], "origin": "deep-but-below-the-backstop"},
